@@ -7,7 +7,8 @@ Open Scope Z_scope.
 Definition batch_bits (d : db) (fps : list fpin) : Z :=
   match dbits d with Some b => b | None => match fps with f0 :: _ => fbits (fi_fp f0) | [] => 0 end end.
 Definition required_props (d : db) (fps : list fpin) : list string :=
-  if (0 <? Z.of_nat (fp_num d)) then map fst (dprops d) else match fps with f0 :: _ => map fst (fi_props f0) | [] => [] end.
+  if (0 <? Z.of_nat (fp_num d)) || (0 <? Z.of_nat (length (dprops d))) then map fst (dprops d)
+  else match fps with f0 :: _ => map fst (fi_props f0) | [] => [] end.
 
 (* every object's property arrays have one cell per name, and there is one name per row *)
 Definition aligned (s : state) : Prop :=
@@ -113,27 +114,32 @@ Proof.
 Qed.
 
 (* ---- set_prop / update_props *)
-Lemma prep_props_bad_len old n pre c post :
-  length (snd c) <> n -> prep_props old n (pre ++ c :: post) false true = Raises EValue.
+(* the column update_props would store for c: the values given, or with append=True the stored column extended by them *)
+Definition effective_col (old : list col) (append : bool) (c : col) : list pval :=
+  if append then match aget (fst c) old with Some o => o ++ snd c | None => snd c end else snd c.
+
+Lemma prep_props_bad_len old n append pre c post :
+  length (effective_col old append c) <> n -> prep_props old n (pre ++ c :: post) append true = Raises EValue.
 Proof.
   intro H. induction pre as [|[k v] pre IH]; simpl.
-  - destruct c as [k v]. simpl in *. apply Nat.eqb_neq in H. rewrite H. reflexivity.
-  - destruct (negb (length v =? n)%nat); [reflexivity|]. rewrite IH. reflexivity.
+  - destruct c as [k v]. unfold effective_col in H. simpl in *. apply Nat.eqb_neq in H. rewrite H. reflexivity.
+  - destruct (negb (_ =? n)%nat); [reflexivity|]. rewrite IH. reflexivity.
 Qed.
 
-Lemma update_props_refuses_len s h oid o pre c post :
-  lookup s h = Some (oid, o) -> length (snd c) <> length (onames o) ->
-  step s (OpUpdateProps h (pre ++ c :: post)) = (s, Raises EValue).
+Lemma update_props_refuses_len s h oid o pre c post append :
+  lookup s h = Some (oid, o) ->
+  length (effective_col (dprops (view (bufs s) o)) append c) <> length (onames o) ->
+  step s (OpUpdateProps h (pre ++ c :: post) append) = (s, Raises EValue).
 Proof.
-  intros Hl H. simpl. rewrite Hl. unfold h_update_props. rewrite (prep_props_bad_len _ _ pre c post H). reflexivity.
+  intros Hl H. cbn [step]. rewrite Hl. unfold h_update_props. rewrite (prep_props_bad_len _ _ _ pre c post H). reflexivity.
 Qed.
 
 Lemma set_prop_refuses_len s h oid o key vals :
   lookup s h = Some (oid, o) -> length vals <> length (onames o) ->
   step s (OpSetProp h key vals) = (s, Raises EValue).
 Proof.
-  intros Hl H. simpl. rewrite Hl. unfold h_update_props.
-  rewrite (prep_props_bad_len _ _ [] (key, vals) [] H). reflexivity.
+  intros Hl H. cbn [step]. rewrite Hl. unfold h_update_props.
+  rewrite (prep_props_bad_len _ _ false [] (key, vals) [] H). reflexivity.
 Qed.
 
 (* ---- concat *)
@@ -241,15 +247,15 @@ Proof.
   destruct (Hal _ _ Ho) as [Hfit Hnum].
   unfold add_precheck in Hp. destruct fps as [|f0 t]; [discriminate|].
   destruct (check_valid _ _ (f0 :: t)); [discriminate|].
-  set (pn := if 0 <? Z.of_nat (fp_num (view (bufs s) o)) then map fst (dprops (view (bufs s) o)) else map fst (fi_props f0)) in *.
+  set (pn := if (0 <? Z.of_nat (fp_num (view (bufs s) o))) || (0 <? Z.of_nat (length (dprops (view (bufs s) o)))) then map fst (dprops (view (bufs s) o)) else map fst (fi_props f0)) in *.
   destruct (collect (dkind (view (bufs s) o)) pn (f0 :: t)) as [[[rs ns] pvs]|] eqn:Ec; simpl in Hp; [|discriminate]. inv Hp.
   destruct (collect_lengths _ _ _ _ _ _ Ec) as (L1 & L2 & L3).
   cbn [ap_names ap_cols ap_rows ap_bits onames] in H. unfold alloc_csr in H. cbv beta iota zeta in H. cbn [onames] in H.
   destruct (prep_props_append_ok (dprops (view (bufs s) o)) (length (onames o)) (length (f0 :: t)) (transpose pn pvs)) as [r Hr].
   - intros c0 Hin. destruct (transpose_spec _ _ _ Hin) as [T1 T2]. split; [congruence|].
-    subst pn. destruct (0 <? Z.of_nat (fp_num (view (bufs s) o))) eqn:E0.
+    subst pn. destruct ((0 <? Z.of_nat (fp_num (view (bufs s) o))) || (0 <? Z.of_nat (length (dprops (view (bufs s) o))))) eqn:E0.
     + right. apply aget_in_keys. exact T2.
-    + left. apply Z.ltb_ge in E0. lia.
+    + left. apply orb_false_iff in E0. destruct E0 as [E0 _]. apply Z.ltb_ge in E0. lia.
   - intros k o1 Hk. cbn [view dprops] in Hk. eapply props_fit_len; eassumption.
   - rewrite app_length, L2 in H. rewrite Hr in H.
     dmatch. discriminate.
@@ -319,6 +325,8 @@ Proof.
     eapply new_db_shared_atomic; eassumption.
   - destruct (lookup s h) as [[oid ob]|] eqn:El; [|inv H; reflexivity].
     unfold h_pickle in H. repeat dmatch; inv H.
+  - destruct (lookup s h) as [[oid ob]|] eqn:El; [|inv H; reflexivity].
+    destruct (fpz && _); [inv H; reflexivity|]. unfold h_pickle in H. repeat dmatch; inv H.
   - destruct (lookup_all s hs); [|inv H; reflexivity].
     unfold h_concat in H. repeat dmatch; inv H; reflexivity.
   - destruct (lookup s h) as [[oid ob]|]; inv H; reflexivity.
